@@ -17,7 +17,10 @@ static int owner[MAXO]; static int nM;                 /* mutex owner, -1 free *
 static unsigned char waiting[MAXO][MAXT]; static int nC;  /* cond waiters */
 static __thread int me = -1;
 static unsigned long rng; static int sp_pct;
-int vs_deadlock; int vs_max_threads_seen; static long steps;
+static int vs_mode = 0;      /* 0 uniform random, 1 preemption-bounded: keep the running thread, switch at a few random steps */
+static int vs_post = 1;      /* extra preemption point after every unlock */
+static long vs_pre[8]; static int vs_npre = 0;   /* steps at which a preemption is forced (mode 1) */
+int vs_deadlock; int vs_max_threads_seen; static long steps; void (*vs_on_deadlock)(void);
 static FILE *logf;
 static unsigned long rnd(void){ rng ^= rng << 13; rng ^= rng >> 7; rng ^= rng << 17; return rng; }
 static int enabled(int t){ struct vthr *x=&T[t]; if(!x->used||x->finished) return 0;
@@ -25,26 +28,32 @@ static int enabled(int t){ struct vthr *x=&T[t]; if(!x->used||x->finished) retur
     case OP_JOIN: return T[x->o1].finished; case OP_NONE: return 0; default: return 1; } }
 /* pick next thread to run; called by the thread that is yielding (it has set its op) or exiting */
 static int pick(void){ int c[MAXT], n=0; for(int t=0;t<nT;t++) if(enabled(t)) c[n++]=t;
-  if(n==0){ /* spurious wake-up can unblock a cond waiter */ return -1; }
+  if(n==0){ return -1; }
+  if(vs_mode==1 && me>=0 && enabled(me)){ int forced=0; for(int i=0;i<vs_npre;i++) if(vs_pre[i]==steps) forced=1;
+    if(!forced) return me;
+    if(n>1){ int k; do { k=c[rnd()%n]; } while(k==me); return k; } }
   return c[rnd()%n]; }
 static void maybe_spurious(void){ if(sp_pct<=0) return; for(int c=0;c<nC;c++) for(int t=0;t<nT;t++) if(waiting[c][t] && (int)(rnd()%100)<sp_pct){ waiting[c][t]=0; if(logf) fprintf(logf,"{\"e\":\"spurious\",\"t\":%d,\"c\":%d}\n",t,c);} }
 static void yield_op(int op,int o1,int o2){ struct vthr *x=&T[me]; x->op=op; x->o1=o1; x->o2=o2; steps++;
   maybe_spurious();
   int nx=pick();
-  if(nx<0){ int all=1; for(int t=0;t<nT;t++) if(T[t].used&&!T[t].finished) all=0; if(!all){ vs_deadlock=1; fprintf(stderr,"VS: DEADLOCK after %ld steps\n",steps); for(int t=0;t<nT;t++) if(T[t].used&&!T[t].finished) fprintf(stderr,"  thread %d blocked on op %d obj %d/%d\n",t,T[t].op,T[t].o1,T[t].o2); _exit(3);} return; }
+  if(nx<0){ int all=1; for(int t=0;t<nT;t++) if(T[t].used&&!T[t].finished) all=0; if(!all){ vs_deadlock=1; fprintf(stderr,"VS: DEADLOCK after %ld steps\n",steps); if(vs_on_deadlock) vs_on_deadlock(); for(int t=0;t<nT;t++) if(T[t].used&&!T[t].finished) fprintf(stderr,"  thread %d blocked on op %d obj %d/%d\n",t,T[t].op,T[t].o1,T[t].o2); _exit(3);} return; }
   if(nx!=me){ sem_post(&T[nx].go); sem_wait(&x->go); }
   if(logf) fprintf(logf,"{\"e\":\"step\",\"t\":%d,\"op\":%d,\"o1\":%d,\"o2\":%d}\n",me,op,o1,o2);
   x->op=OP_NONE; }
 static void *tramp(void *a){ int id=(int)(long)a; me=id; sem_wait(&T[id].go); if(logf) fprintf(logf,"{\"e\":\"step\",\"t\":%d,\"op\":%d}\n",me,OP_START); T[id].op=OP_NONE;
   T[id].ret=T[id].fn(T[id].arg);
-  T[id].finished=1; T[id].op=OP_NONE; int nx=pick(); if(nx>=0) sem_post(&T[nx].go); else { int all=1; for(int t=0;t<nT;t++) if(T[t].used&&!T[t].finished) all=0; if(!all){ vs_deadlock=1; fprintf(stderr,"VS: DEADLOCK at thread exit\n"); _exit(3);} }
+  T[id].finished=1; T[id].op=OP_NONE; int nx=pick(); if(nx>=0) sem_post(&T[nx].go); else { int all=1; for(int t=0;t<nT;t++) if(T[t].used&&!T[t].finished) all=0; if(!all){ vs_deadlock=1; fprintf(stderr,"VS: DEADLOCK at thread exit\n"); if(vs_on_deadlock) vs_on_deadlock(); _exit(3);} }
   return NULL; }
+void vs_config(int mode,int post,int npre,long horizon,unsigned long seed){ vs_mode=mode; vs_post=post; vs_npre=npre>8?8:npre; unsigned long x=seed*6364136223846793005UL+1442695040888963407UL; for(int i=0;i<vs_npre;i++){ x^=x<<13; x^=x>>7; x^=x<<17; vs_pre[i]=(long)(x%(unsigned long)(horizon>0?horizon:1)); } }
 void vs_begin(unsigned long seed,int spurious_pct){ memset(T,0,sizeof T); nT=1; nM=nC=0; memset(waiting,0,sizeof waiting); T[0].used=1; sem_init(&T[0].go,0,0); me=0; rng=seed*2654435761UL+88172645463325252UL; sp_pct=spurious_pct; steps=0; vs_deadlock=0; vs_max_threads_seen=0; const char *lp=getenv("VS_LOG"); logf= lp? fopen(lp,"w"):NULL; }
 int vs_end(void){ if(logf){fclose(logf);logf=NULL;} for(int t=1;t<nT;t++) assert(T[t].finished); return (int)steps; }
 int vs_mutex_init(pthread_mutex_t *m,const pthread_mutexattr_t *a){ (void)a; struct vmx *x=(struct vmx*)m; x->magic=0x564d5831; x->id=nM; assert(nM<MAXO); owner[nM++]=-1; return 0; }
 int vs_mutex_destroy(pthread_mutex_t *m){ struct vmx *x=(struct vmx*)m; assert(x->magic==0x564d5831); assert(owner[x->id]<0); x->magic=0; return 0; }
 int vs_mutex_lock(pthread_mutex_t *m){ struct vmx *x=(struct vmx*)m; assert(x->magic==0x564d5831); yield_op(OP_LOCK,x->id,0); assert(owner[x->id]<0); owner[x->id]=me; return 0; }
-int vs_mutex_unlock(pthread_mutex_t *m){ struct vmx *x=(struct vmx*)m; assert(x->magic==0x564d5831); yield_op(OP_UNLOCK,x->id,0); assert(owner[x->id]==me); owner[x->id]=-1; return 0; }
+int vs_mutex_unlock(pthread_mutex_t *m){ struct vmx *x=(struct vmx*)m; assert(x->magic==0x564d5831); yield_op(OP_UNLOCK,x->id,0); assert(owner[x->id]==me); owner[x->id]=-1;
+  if(vs_post) yield_op(OP_MISC,x->id,0);   /* the code after an unlock is a separate step: another thread may run in between */
+  return 0; }
 int vs_cond_init(pthread_cond_t *c,const pthread_condattr_t *a){ (void)a; struct vcv *x=(struct vcv*)c; x->magic=0x56435631; x->id=nC++; assert(nC<=MAXO); return 0; }
 int vs_cond_destroy(pthread_cond_t *c){ struct vcv *x=(struct vcv*)c; assert(x->magic==0x56435631); for(int t=0;t<nT;t++) assert(!waiting[x->id][t]); x->magic=0; return 0; }
 int vs_cond_wait(pthread_cond_t *c,pthread_mutex_t *m){ struct vcv *x=(struct vcv*)c; struct vmx *y=(struct vmx*)m; assert(x->magic==0x56435631&&y->magic==0x564d5831);
@@ -52,6 +61,7 @@ int vs_cond_wait(pthread_cond_t *c,pthread_mutex_t *m){ struct vcv *x=(struct vc
   yield_op(OP_CW_ACQ,x->id,y->id); assert(owner[y->id]<0); owner[y->id]=me; return 0; }
 int vs_cond_signal(pthread_cond_t *c){ struct vcv *x=(struct vcv*)c; assert(x->magic==0x56435631); yield_op(OP_SIGNAL,x->id,0);
   int w[MAXT],n=0; for(int t=0;t<nT;t++) if(waiting[x->id][t]) w[n++]=t; if(n){ int t=w[rnd()%n]; waiting[x->id][t]=0; } return 0; }
+int vs_self(void){ return me; }
 int vs_create(pthread_t *pt,const pthread_attr_t *a,void *(*fn)(void*),void *arg){ (void)a; yield_op(OP_CREATE,0,0); assert(nT<MAXT); int id=nT++; struct vthr *x=&T[id]; memset(x,0,sizeof *x); x->used=1; x->fn=fn; x->arg=arg; x->op=OP_START; sem_init(&x->go,0,0);
   int live=0; for(int t=1;t<nT;t++) if(T[t].used&&!T[t].finished) live++; if(live>vs_max_threads_seen) vs_max_threads_seen=live;
   int r=pthread_create(&x->pt,NULL,tramp,(void*)(long)id); assert(r==0); memcpy(pt,&id,sizeof id); return 0; }
